@@ -5,8 +5,9 @@ configurations / resource budget they run in.
 Assertion messages inside the harnesses start with the property tag(s), e.g. "C03: ..." or
 "C03/C19: ...".  The driver attributes a failed check to the properties named in its tag; an
 untagged failure (Kani's built-in checks: overflow, OOB, unwrap on None, debug_assert!,
-unreachable!) is a panic of the real code and is attributed to C01 when the harness carries
-C01, otherwise to every property of the harness.
+unreachable!) is a panic of the real code in the debug build; it counts against every property of
+the harness (what trips a debug assertion usually breaks the harness's own property in the release
+build), and is reported for a property only if the native replay shows a violation of that property.
 """
 
 HARNESSES = []
@@ -229,7 +230,7 @@ H("num_hex_spec_n4", NUM, ["C08", "C16"], tier="thorough", bound="<= 4 ASCII byt
 
 # C19: the same functional contracts in the release-like configuration (debug assertions compiled out):
 # a side effect hidden inside a debug assertion, or a debug-only branch, shows as a failed contract there.
-for _n in ("lx_token_expect_symbol", "lx_token_expect_semi", "lx_token_ws_only", "lx_token_macro_def_name", "lx_numeric_literal",
+for _n in ("lx_macro_call_k3", "lx_eval_dispatch_ops", "lx_eval_percent_op", "lx_datalines_ascii_n1", "lx_double_quoted_literal_direct", "lx_token_expect_symbol", "lx_token_expect_semi", "lx_token_ws_only", "lx_token_macro_def_name", "lx_numeric_literal",
            "lx_macro_comment_k4", "lx_default_star", "lx_default_symbol", "lx_maybe_args_or_label", "lx_new_bom", "lx_single_quoted_k3"):
     _h = by_name(_n) if "by_name" in globals() else None
     for _x in HARNESSES:
